@@ -560,6 +560,20 @@ def op_grid(orig, r, op):
     return rows
 
 
+def extend_until_somehow(e, t):
+    """Envelope.extend_until in the ways a score reaches it (chosen by the target itself): directly, with an explicit white
+    space function (accepted and documented as unused by envelopes), or as a voice of a simultaneity that is extended"""
+    t = int(t)
+    v = (t // 7) % 4
+    if v == 1:
+        return e.extend_until(T(t), lambda d: ce.Chronon(d))
+    if v == 2:
+        holder = ce.Concurrence([e])
+        holder.extend_until(T(t))
+        return holder[0]
+    return e.extend_until(T(t))
+
+
 def followup(r):
     """the envelope returned by an operation is an envelope like any other: adding a control point one beat after its end
     must create a point exactly there (an event object held twice by the result makes the point land elsewhere)"""
@@ -606,6 +620,25 @@ def run(case):
             except Exception:  # noqa: the decoy itself is not under test here
                 pass
             case = case[:-1]
+        elif case[-1] and case[-1][0] == "after":
+            # second-life stream: the live object was first EDITED (prolonged past its end, cut, ...); the reads below are
+            # asked of that object, the untouched copy is rebuilt from the control points it reports after the edit
+            e = build(case[1])
+            op = case[-1][1]
+            try:
+                if op[0] == "sample_at":
+                    e.sample_at(T(op[1]))
+                elif op[0] == "extend_until":
+                    e.extend_until(T(op[1]))
+                elif op[0] == "cut_out":
+                    e.cut_out(T(op[1]), T(op[2]))
+                elif op[0] == "cut_off":
+                    e.cut_off(T(op[1]), T(op[2]))
+            except Exception:  # noqa: the edit itself is judged by C11
+                e = build(case[1])
+            base = snap(e)
+            base[0] = case[1][0]
+            case = [case[0], base] + case[2:-1]
         else:
             e = build(case[1])
         before = snap(e)
@@ -640,7 +673,7 @@ def run(case):
                 if op[0] == "sample_at":
                     r = e.sample_at(T(op[1]), append_duration=T(op[2]))
                 elif op[0] == "extend_until":
-                    r = e.extend_until(T(op[1]))
+                    r = extend_until_somehow(e, op[1])
                 elif op[0] == "cut_out":
                     r = e.cut_out(T(op[1]), T(op[2]))
                 elif op[0] == "cut_off":
@@ -673,7 +706,7 @@ def run(case):
             if op[0] == "sample_at":
                 r = e.sample_at(T(op[1]), append_duration=T(op[2]))
             elif op[0] == "extend_until":
-                r = e.extend_until(T(op[1]))
+                r = extend_until_somehow(e, op[1])
             elif op[0] == "cut_out":
                 r = e.cut_out(T(op[1]), T(op[2]))
             elif op[0] == "cut_off":
